@@ -34,11 +34,17 @@ def gen_cases(rng, tier: str) -> list[dict]:
     exprs += common.expr_stream(rng, tier, common.sizes(tier, 300, 4000), share=0.5)
     for origin, e in exprs:
         prior: list[str] = []
-        for p in common.points_for(rng, e, 2, extra=0.2):
+        pts = common.points_for(rng, e, 2, extra=0.2)
+        if rng.random() < 0.3 and pts[0]:
+            # two points that differ in one coordinate only, in a way hash() cannot see (-1 / -2)
+            pts = list(common.hash_twin(pts[0], rng))
+        keep = rng.random() < 0.5
+        for p in pts:
             c = common.make_eval_case(origin, e, p)
             c["prior"] = prior[:]
             prior.append(c["p"])
             c["route"] = rng.choice(["LD", "FATL"])
+            c["keep"] = keep            # one Differential object, asked at the earlier points first
             cases.append(c)
     for origin, pairs in (("compensating-magnitudes", common.compensating_products(rng, common.sizes(tier, 150, 1500))),
                           ("vanishing-factor", common.vanishing_products(rng, common.sizes(tier, 150, 1500))),
@@ -63,6 +69,12 @@ def check_cases(cases: list[dict], rep: Report, known: dict) -> None:
             call(e.at, wire.build_point(q))
         if c["route"] == "LD":
             obj = call(lambda: sm.LocatedDifferential(e, p))
+        elif c.get("keep") and c.get("prior"):
+            kept = call(lambda: sm.Differential(e))
+            for q in c["prior"]:
+                if kept[0] == "ok":
+                    call(lambda: kept[1].at(wire.build_point(q)))
+            obj = call(lambda: kept[1].at(p)) if kept[0] == "ok" else kept
         else:
             obj = call(lambda: sm.Differential(e).at(p))
         vs = common.names_of(e) + ["w"]
